@@ -152,7 +152,16 @@ func init() {
 	intrinsics["strings.TrimPrefix"] = func(ex *Exec, fr *Frame, in ssa.Instruction, fn *ssa.Function, args []Value, st *State, cont callCont) {
 		s := args[0].(*Term)
 		r := FreshVar("trimmed", BV(64))
-		st.Assume(BVCmp("bvule", App("str_len", BV(64), r), ex.eng.strLen(s)))
+		// the result is s itself or s without the prefix: its length is len(s) or len(s) - len(prefix)
+		rl := App("str_len", BV(64), r)
+		sl := ex.eng.strLen(s)
+		alts := []*Term{Eq(rl, sl)}
+		if p, ok := args[1].(*Term); ok {
+			pl := ex.eng.strLen(p)
+			alts = append(alts, And(BVCmp("bvule", pl, sl), Eq(rl, BVBin("bvsub", sl, pl))))
+		}
+		st.Assume(BVCmp("bvule", rl, sl))
+		st.Assume(Or(alts...))
 		cont(st, fr, r)
 	}
 	intrinsics["encoding/hex.DecodeString"] = func(ex *Exec, fr *Frame, in ssa.Instruction, fn *ssa.Function, args []Value, st *State, cont callCont) {
@@ -162,6 +171,9 @@ func init() {
 		n := FreshVar("hexlen", BV(64))
 		st.Assume(BVCmp("bvule", n, ex.eng.strLen(str)))
 		e := st.SymValue(errorType, "hexerr", *st.nextRg).(*IfaceV)
+		// on success every pair of hex digits gave one byte (documented behaviour of encoding/hex: odd lengths and
+		// non-hex characters are errors)
+		st.Assume(Implies(Eq(e.Tag, BVc(0, 32)), Eq(BVBin("bvshl", n, BVc(1, 64)), ex.eng.strLen(str))))
 		res := &TupleV{Elems: []Value{&SliceV{Base: base, Off: BVc(0, 64), Len: n, Cap: n}, e}}
 		// content unknown: havoc the fresh region lazily by reading through an unknown array is not
 		// possible (fresh regions read as zero), so store symbolic bytes up to a small bound only when needed
